@@ -13,6 +13,9 @@ run py=0 ncn=1 host=<s> cr=<u|c|f|s><N|O|R>? ah=<u|f|n:<s>> fp=<~|s> sh=<~|s> ct
 dem  … same tokens …        -- prints `demands` / `proxyDemands`
 ```
 
+Answer of `run`: `ok iv= piv= sni= wraps=… warn= req= closed=` or `err=<class> wraps=… …`; one TLS-layer
+call is printed as `<server_hostname>/<verify_mode>/<check_hostname>/<ca given>/<tls_in_tls>/<load_default_certs called>`.
+
 The oracle functions are finite tables; the model is evaluated twice, with `false` and with `true`
 as the answer for names / pins missing from the table, and `oracle-miss` is printed when the two
 runs differ (so that an incomplete table can never pass silently). -/
@@ -115,7 +118,7 @@ def showVm : VerifyMode → String
   | .none => "N" | .optional => "O" | .required => "R"
 
 def showWrap (w : WrapObs) : String :=
-  s!"{showStr w.serverHostname}/{showVm w.verifyMode}/{bs w.checkHostname}/{bs w.caGiven}/{bs w.tlsInTls}"
+  s!"{showStr w.serverHostname}/{showVm w.verifyMode}/{bs w.checkHostname}/{bs w.caGiven}/{bs w.tlsInTls}/{bs w.loadDefault}"
 
 def showWraps (ws : List WrapObs) : String :=
   if ws.isEmpty then "-" else ";".intercalate (ws.map showWrap)
